@@ -197,7 +197,11 @@ func (a *AddressDecMap) Decode(r stdio.Reader) (err error) {
 		return errors.WithMessage(err, "decoding map length")
 	}
 
-	*a = make(map[BackendID]Address, mapLen)
+	if mapLen < 0 {
+		return errors.Errorf("negative map length: %d", mapLen)
+	}
+	// The length is read from the wire, so it must not be used as a size hint.
+	*a = make(map[BackendID]Address)
 	for i := range mapLen {
 		var idx int32
 		err := perunio.Decode(r, &idx)
@@ -222,12 +226,19 @@ func (a *AddressMapArray) Decode(r stdio.Reader) (err error) {
 		return errors.WithMessage(err, "decoding array length")
 	}
 
-	a.Addr = make([]map[BackendID]Address, mapLen)
+	if mapLen < 0 {
+		return errors.Errorf("negative array length: %d", mapLen)
+	}
+	// The length is read from the wire, so the array grows with the entries
+	// that are actually present instead of being allocated up front.
+	a.Addr = make([]map[BackendID]Address, 0)
 	for i := range mapLen {
-		err := perunio.Decode(r, (*AddressDecMap)(&a.Addr[i]))
+		var addr AddressDecMap
+		err := perunio.Decode(r, &addr)
 		if err != nil {
 			return errors.WithMessagef(err, "decoding %d-th address map entry", i)
 		}
+		a.Addr = append(a.Addr, addr)
 	}
 	return nil
 }
